@@ -134,7 +134,7 @@ Section Walk.
   Lemma W_reset_core fx s k cond : P s (fst (reset_core fx s k cond)).
   Proof.
     unfold reset_core. destruct (lookup (kmap s) k) as [r|] eqn:Ek; [|apply P_refl]. destruct (negb (cond_match cond k)); [apply P_refl|].
-    set (s1 := cancel_inst s (rcancel (getr s r))). set (w0 := if has_ctx s1 || fx_reset fx then _ else _).
+    set (s1 := cancel_inst s (rcancel (getr s r))). match goal with |- context [new_record s1 k _ ?w] => set (w0 := w) end.
     assert (K1 : lookup (kmap s1) k = Some r) by (unfold s1; rewrite kmap_cancel_inst; exact Ek).
     pose proof (P_new_same s1 k r (rlin (getr s r)) w0 K1) as G.
     assert (L : lookup (kmap (fst (new_record s1 k (rlin (getr s r)) w0))) k = Some (snd (new_record s1 k (rlin (getr s r)) w0)))
@@ -216,8 +216,8 @@ Section Walk.
       destruct (rexited (getr s1 (trec x))); [|exact G1]. tr; [exact G1|]. apply (P_start _ (rkey (getr s1 (trec x)))); [now apply in_map_lookup | exact Ec].
   Qed.
 
-  (* every event except SetContext, a clock advance and the cancellation of a root context *)
-  Definition ordinary (e : ev) : bool := match e with ESetCtx _ _ | EAdvance _ | ECancelRoot _ => false | _ => true end.
+  (* every event except SetContext, a clock advance, the cancellation of a root context and the constructor's mode *)
+  Definition ordinary (e : ev) : bool := match e with ESetCtx _ _ | EAdvance _ | ECancelRoot _ | ESetNil _ => false | _ => true end.
   Theorem W_step fx s e : ordinary e = true -> P s (step fx s e).
   Proof.
     intros H. destruct e; cbn [step]; try discriminate H.
@@ -228,7 +228,7 @@ Section Walk.
   Qed.
   (* ... and except the KeyedRefCount calls *)
   Definition plain (e : ev) : bool :=
-    match e with ESetCtx _ _ | EAdvance _ | ECancelRoot _ | EAddRef _ | ERelStart _ | ERelSect _ | ERcRemove _ => false | _ => true end.
+    match e with ESetCtx _ _ | EAdvance _ | ECancelRoot _ | ESetNil _ | EAddRef _ | ERelStart _ | ERelSect _ | ERcRemove _ => false | _ => true end.
   Theorem W_step_plain fx s e : plain e = true -> P s (step fx s e).
   Proof.
     intros H. destruct e; cbn [step]; try discriminate H.
